@@ -53,7 +53,7 @@ class BuiltinConverterProvider(ConverterProvider):
             lambda x: "Cannot create top-level coercer",
         )
         closure_name = self._get_closure_name(request)
-        dumper_code, dumper_namespace = self._produce_code(
+        closure_var, dumper_code, dumper_namespace = self._produce_code(
             signature=request.signature,
             closure_name=closure_name,
             stub_function=request.stub_function,
@@ -64,7 +64,7 @@ class BuiltinConverterProvider(ConverterProvider):
             code_gen_hook=fetch_code_gen_hook(mediator, LocStack(dst_loc)),
             namespace=dumper_namespace,
             closure_code=dumper_code,
-            closure_name=closure_name,
+            closure_name=closure_var,
             file_name=self._get_file_name(request),
         )
 
@@ -85,13 +85,16 @@ class BuiltinConverterProvider(ConverterProvider):
         stub_function: Optional[Callable],
         closure_name: str,
         coercer: Coercer,
-    ) -> tuple[str, Mapping[str, object]]:
+    ) -> tuple[str, str, Mapping[str, object]]:
         builder = CodeBuilder()
         namespace = BuiltinCascadeNamespace(occupied=signature.parameters.keys())
         namespace.add_outer_constant("_closure_signature", signature)
         namespace.add_outer_constant("_stub_function", stub_function)
         namespace.add_outer_constant("_update_wrapper", update_wrapper)
         coercer_var = self._register_mangled(namespace, "coercer", coercer)
+        # The name of function can be any string and can collide with other variables,
+        # so function is defined under reserved variable and gets its name as an attribute
+        closure_var = self._register_mangled(namespace, "converter", None)
 
         no_types_signature = signature.replace(
             parameters=[param.replace(annotation=Signature.empty) for param in signature.parameters.values()],
@@ -101,15 +104,15 @@ class BuiltinConverterProvider(ConverterProvider):
         ctx_passing = self._get_ctx_passing(parameters[1:])
         builder(
             f"""
-            def {closure_name}{no_types_signature}:
+            def {closure_var}{no_types_signature}:
                 return {coercer_var}({parameters[0].name}, {ctx_passing})
             """,
         )
         if stub_function is not None:
-            builder += f"_update_wrapper({closure_name}, _stub_function)"
-        builder += f"{closure_name}.__signature__ = _closure_signature"
-        builder += f"{closure_name}.__name__ = {closure_name!r}"
-        return builder.string(), namespace.all_constants
+            builder += f"_update_wrapper({closure_var}, _stub_function)"
+        builder += f"{closure_var}.__signature__ = _closure_signature"
+        builder += f"{closure_var}.__name__ = {closure_name!r}"
+        return closure_var, builder.string(), namespace.all_constants
 
     def _get_ctx_passing(self, ctx_parameters: Sequence[Parameter]) -> str:
         if len(ctx_parameters) == 0:
